@@ -18,6 +18,8 @@ type SMT struct {
 	asserts   []string          // definitions and guarded assumptions, in program order
 	groups    []string          // parallel to asserts: "" = always included, else only for obligations of that group
 	curGroup  string
+	axioms    []string // closed facts about uninterpreted functions: premises of every obligation
+	axiomSeen map[string]bool
 	n         int
 	strLits   map[string]string
 	structs   map[string]*types.Struct // datatype name -> struct
@@ -27,7 +29,7 @@ type SMT struct {
 
 func NewSMT() *SMT {
 	s := &SMT{sortSeen: map[string]bool{}, declSeen: map[string]string{}, strLits: map[string]string{},
-		structs: map[string]*types.Struct{}, ufs: map[string]bool{}, notes: map[string]bool{}}
+		structs: map[string]*types.Struct{}, ufs: map[string]bool{}, notes: map[string]bool{}, axiomSeen: map[string]bool{}}
 	s.sortDecls = append(s.sortDecls,
 		"(declare-datatypes ((Slice 0)) (((mk-slice (s.arr Int) (s.off Int) (s.len Int) (s.cap Int)))))",
 		"(declare-datatypes ((Iface 0)) (((mk-iface (i.tag Int) (i.val Int)))))",
@@ -106,6 +108,14 @@ func (s *SMT) fresh(prefix, sort string) string {
 func (s *SMT) assert(t string) {
 	s.asserts = append(s.asserts, t)
 	s.groups = append(s.groups, s.curGroup)
+}
+
+// axiom records a closed fact about uninterpreted functions; it is a premise of every obligation of the unit.
+func (s *SMT) axiom(t string) {
+	if !s.axiomSeen[t] {
+		s.axiomSeen[t] = true
+		s.axioms = append(s.axioms, t)
+	}
 }
 
 // assertG records an assumption that only obligations of group g may use.
@@ -373,6 +383,9 @@ func num(n int64) string {
 
 // Go truncating division / remainder on mathematical integers.
 func goDiv(a, b string) string {
+	if n, ok := smallPosConst(b); ok {
+		return fmt.Sprintf("(ite (>= %s 0) (div %s %d) (- (div (- %s) %d)))", a, a, n, a, n)
+	}
 	// SMT div is floor for positive divisor, ceiling for negative (Euclidean). Go truncates toward zero.
 	return fmt.Sprintf("(ite (>= %s 0) (ite (> %s 0) (div %s %s) (- (div %s (- %s)))) (ite (> %s 0) (- (div (- %s) %s)) (div (- %s) (- %s))))",
 		a, b, a, b, a, b, b, a, b, a, b)
@@ -403,4 +416,12 @@ func (s *SMT) Prelude() string {
 		b.WriteString("(assert (distinct " + strings.Join(names, " ") + "))\n")
 	}
 	return b.String()
+}
+
+func smallPosConst(t string) (int64, bool) {
+	var n int64
+	if _, err := fmt.Sscanf(t, "%d", &n); err == nil && fmt.Sprintf("%d", n) == t && n > 0 {
+		return n, true
+	}
+	return 0, false
 }
